@@ -360,6 +360,12 @@ def ma_group(inner_name, seed, encs):
     X = rng.normal(size=(n, 2)).round(3)
     y_abs = np.where(rng.rand(n, na) < 0.5, -1, rng.randint(0, 2, size=(n, na)))
     y_abs[0] = -1                      # at least one fully unlabeled sample
+    if seed % 3 == 0:
+        # an early state of a labeling campaign: only the FIRST class has been observed so far, and every annotated
+        # sample was annotated by all annotators (label values that are falsy in one encoding - 0, 0.0 - and
+        # truthy in another must not matter)
+        y_abs[:] = -1
+        y_abs[1:1 + 2 + seed % 2] = 0
     obs = []
     try:
         for enc in encs:
